@@ -250,6 +250,40 @@ CapturedCases ==
 
 \* ---------------------------------------------------------------- (B) capture
 GetX == FnE(<<>>, WInt, <<Ret(V("x"))>>)
+\* A function literal that is evaluated more than once (a factory called twice, a loop body) captures anew each time,
+\* also when the captured name is used only INSIDE a function nested in the literal (a helper bound to a name, a
+\* declared helper, a literal called on the spot, two levels down, a callback of @) and never at the literal's own level.
+DeepBody(how, x) ==
+  CASE how = "helper" -> <<Set("hh", FnE(<<>>, WInt, <<Ret(x)>>)), Ret(CallE(V("hh"), <<>>))>>
+    [] how = "decl"   -> <<FnDecl("hh", <<>>, WInt, <<Ret(x)>>), Ret(CallE(V("hh"), <<>>))>>
+    [] how = "inline" -> <<Ret(CallE(FnE(<<>>, WInt, <<Ret(x)>>), <<>>))>>
+    [] how = "deep3"  -> <<Set("hh", FnE(<<>>, WInt, <<Set("kk", FnE(<<>>, WInt, <<Ret(x)>>)), Ret(CallE(V("kk"), <<>>))>>)), Ret(CallE(V("hh"), <<>>))>>
+    [] how = "map"    -> <<Ret(RedE("$+", "int", MapE(IterE(ArrE(<<I(0)>>)), FnE(<<P("z", WInt)>>, WInt, <<Ret(Bin("+", V("z"), x))>>))))>>
+    [] how = "block"  -> <<Set("r", Block(<<Set("hh", FnE(<<>>, WInt, <<Ret(x)>>)), CallE(V("hh"), <<>>)>>)), Ret(V("r"))>>
+DeepHows == {"helper", "decl", "inline", "deep3", "map", "block"}
+FnInt == WFn(<<>>, WInt)
+DeepCases ==
+  {Case("factory-deep-param-" \o how,
+        <<FnDecl("mk", <<P("n", WInt)>>, FnInt, <<Ret(FnE(<<>>, WInt, DeepBody(how, V("n"))))>>),
+          Set("a", CallE(V("mk"), <<H(1)>>)), Set("b", CallE(V("mk"), <<H(2)>>)),
+          TupE(<<CallE(V("a"), <<>>), CallE(V("b"), <<>>), CallE(V("a"), <<>>)>>)>>, T3(1, 2, 1)) : how \in DeepHows}
+  \cup {Case("factory-deep-local-" \o how,
+        <<FnDecl("mk", <<P("n", WInt)>>, FnInt, <<Set("m", Bin("*", V("n"), I(10))), Ret(FnE(<<>>, WInt, DeepBody(how, V("m"))))>>),
+          Set("a", CallE(V("mk"), <<H(1)>>)), Set("b", CallE(V("mk"), <<H(2)>>)),
+          TupE(<<CallE(V("a"), <<>>), CallE(V("b"), <<>>), CallE(V("a"), <<>>)>>)>>, T3(10, 20, 10)) : how \in DeepHows}
+  \cup {Case("factory-deep-cell-" \o how,
+        <<FnDecl("mk", <<>>, FnInt, <<Set("c", MutE(WInt, I(0))), Ret(FnE(<<>>, WInt, DeepBody(how, Asg("+=", V("c"), I(1)))))>>),
+          Set("a", CallE(V("mk"), <<>>)), Set("b", CallE(V("mk"), <<>>)),
+          TupE(<<CallE(V("a"), <<>>), CallE(V("a"), <<>>), CallE(V("b"), <<>>)>>)>>, T3(1, 2, 1)) : how \in DeepHows}
+  \cup {Case("loop-deep-" \o how,
+        <<Set("fs", MutE(WArr(FnInt), ArrE(<<>>))),
+          For("i", IterE(ArrE(<<H(1), H(2)>>)), Block(<<Asg("+=", V("fs"), ArrE(<<FnE(<<>>, WInt, DeepBody(how, V("i")))>>))>>)),
+          TupE(<<CallE(At(Deref(V("fs")), I(0)), <<>>), CallE(At(Deref(V("fs")), I(1)), <<>>), CallE(At(Deref(V("fs")), I(0)), <<>>)>>)>>, T3(1, 2, 1))
+        : how \in DeepHows}
+  \cup {Case("literal-in-function-called-twice-" \o how,
+        <<FnDecl("run", <<P("n", WInt)>>, WInt, <<Set("f", FnE(<<>>, WInt, DeepBody(how, V("n")))), Ret(CallE(V("f"), <<>>))>>),
+          TupE(<<CallE(V("run"), <<H(1)>>), CallE(V("run"), <<H(2)>>), CallE(V("run"), <<H(1)>>)>>)>>, T3(1, 2, 1)) : how \in DeepHows}
+
 CaptureCases == {
   Case("capture-redeclare", <<Set("x", H(1)), Set("f", GetX), Set("x", H(2)), TupE(<<CallE(V("f"), <<>>), V("x")>>)>>,
        TupV(<<IntV(1), IntV(2)>>)),
@@ -472,7 +506,7 @@ ModCases == {
 }
 
 \* int / bool / struct values cannot share one TLC set: keep the suites in separate sequences
-CaseSeq == SetToSeq(ShadowCases) \o SetToSeq(SoloCases) \o SetToSeq(LateCases) \o SetToSeq(RedeclCases) \o SetToSeq(CapturedCases) \o SetToSeq(CaptureCases) \o SetToSeq(RecCases) \o SetToSeq(NoisyCases) \o <<HelperCase>> \o SetToSeq(ModCases)
+CaseSeq == SetToSeq(ShadowCases) \o SetToSeq(SoloCases) \o SetToSeq(LateCases) \o SetToSeq(RedeclCases) \o SetToSeq(CapturedCases) \o SetToSeq(CaptureCases) \o SetToSeq(DeepCases) \o SetToSeq(RecCases) \o SetToSeq(NoisyCases) \o <<HelperCase>> \o SetToSeq(ModCases)
 N == Len(CaseSeq)
 Fuel == 3000
 Out(i) == Outcome(Run(CaseSeq[i].prog, Fuel))
